@@ -47,9 +47,66 @@ def to_smt2(hyps, goal_neg):
     return s.to_smt2()
 
 
+_MUL_UF = {}
+
+
+def _abstract_products(exprs):
+    """replace every nonlinear real/int product, division by a non-numeral and power by an application of an
+    uninterpreted function.  Over-approximation: UNSAT of the abstraction implies UNSAT of the original (sound for proving only)."""
+    cache = {}
+    found = [False]
+
+    def uf(kind, sorts, rng):
+        key = (kind, tuple(str(x) for x in sorts), str(rng))
+        if key not in _MUL_UF:
+            _MUL_UF[key] = z3.Function(f"{kind}!abs{len(_MUL_UF)}", *(list(sorts) + [rng]))
+        return _MUL_UF[key]
+
+    def rec(e):
+        k = e.get_id()
+        if k in cache:
+            return cache[k]
+        if z3.is_quantifier(e) or not z3.is_app(e):
+            cache[k] = e
+            return e
+        args = [rec(a) for a in e.children()]
+        dk = e.decl().kind()
+        out = None
+        if dk == z3.Z3_OP_MUL:
+            nonnum = [a for a in args if not (z3.is_int_value(a) or z3.is_rational_value(a))]
+            if len(nonnum) >= 2:
+                found[0] = True
+                nums = [a for a in args if (z3.is_int_value(a) or z3.is_rational_value(a))]
+                acc = nonnum[0]
+                for a in nonnum[1:]:
+                    acc = uf("mul", [acc.sort(), a.sort()], e.sort())(acc, a)
+                for a in nums:
+                    acc = a * acc
+                out = acc
+        elif dk in (z3.Z3_OP_DIV, z3.Z3_OP_IDIV, z3.Z3_OP_MOD, z3.Z3_OP_POWER) and not (z3.is_int_value(args[1]) or z3.is_rational_value(args[1])):
+            found[0] = True
+            out = uf({z3.Z3_OP_DIV: "div", z3.Z3_OP_IDIV: "idiv", z3.Z3_OP_MOD: "mod", z3.Z3_OP_POWER: "pow"}[dk], [a.sort() for a in args], e.sort())(*args)
+        if out is None:
+            out = e.decl()(*args) if args else e
+        cache[k] = out
+        return out
+    return [rec(x) for x in exprs], found[0]
+
+
 def prove(hyps, goal, timeout_s=10.0, want_model=True, fallback=True):
     """returns dict(status, model, backend, seconds, smt)"""
     t0 = time.time()
+    try:
+        abst, nonlinear = _abstract_products(list(hyps) + [z3.Not(goal)])
+    except Exception:
+        abst, nonlinear = None, False
+    if nonlinear:
+        sa = z3.Solver()
+        sa.set("timeout", int(min(timeout_s, 4.0) * 1000))
+        for h in abst:
+            sa.add(h)
+        if sa.check() == z3.unsat:
+            return dict(status="unsat", model=None, backend=Z3_VERSION + " (products abstracted to uninterpreted functions)", seconds=time.time() - t0, smt="")
     s = z3.Solver()
     s.set("timeout", int(timeout_s * 1000))
     for h in hyps:
